@@ -113,7 +113,7 @@ def run(ctx):
     exe = dv.build_harness('h_chaselev', ['h_chaselev.cpp'], need_lib=False)
     ctx.phase('build')
     r = ctx.rng
-    n = 600 if ctx.quick else 12000
+    n = 360 if ctx.quick else 12000
     cases = [RACE_A, RACE_B] + [gen_case(r) for _ in range(n)]
     outs = ls_common.run_cases(exe, [line_of(c) for c in cases])
     terms, kept = [], []
